@@ -44,6 +44,7 @@ class Run:
         self.keep = keep
         self.dedup_trust = dedup_trust
         self.wf_id = "W-" + prog["name"]
+        self._dedup_seen = False
         self.handled = 0
         self.raw = None
         self.proj: Projector | None = None
@@ -109,6 +110,7 @@ class Run:
 
         def is_processed(mid):
             r = orig_proc(mid)
+            run._dedup_seen = True
             run.emit({"e": "dedup", "res": bool(r)})
             return r
 
@@ -117,6 +119,8 @@ class Run:
             orig = h.handle
 
             def handle(message, _orig=orig, _mt=mt.__name__):
+                if not run._dedup_seen:
+                    run.emit({"e": "trusted"})   # handler entered without the durable duplicate check
                 try:
                     _orig(message)
                 except VerifCrash:
@@ -193,6 +197,7 @@ class Run:
         """poll_one + _handle_message + ack (or withheld ack / reschedule on failure)."""
         self.force_row = qid
         self.force_hit = False
+        self._dedup_seen = False
         try:
             msg = self.queue.poll_one()
         finally:
@@ -280,6 +285,12 @@ class Run:
             txn.push_message(StartStage(execution_type="PIPELINE", execution_id=self.wf_id, stage_id=sid))
         self.quiet = q
         self.emit({"e": "early", "stage": stage_ref, "s": self.proj.state()})
+
+    def bloom_reset(self) -> None:
+        from stabilize.queue.dedup import get_deduplicator
+
+        get_deduplicator().reset()
+        self.emit({"e": "bloomreset"})
 
     def restart_clean(self) -> None:
         """Orderly process restart while idle: same loss of volatile state, recovery on start."""
